@@ -30,6 +30,7 @@ import (
 
 func init() {
 	register(&Engine{Name: "bip39", Gen: genBip39, NewExec: func() Exec { return stateless{execBip39} }})
+	parSetBudget(execBip39, 4) // short stream: afford up to 4x its sequential time for the concurrent re-runs (par.go)
 }
 
 // ---------------------------------------------------------------------------------------------
